@@ -1,4 +1,5 @@
 """C01 - legal move generation is exactly the rules of chess (necessary conditions only)."""
+from . import shared
 from . import attackrules, genrules, emitrules
 
 
@@ -22,6 +23,7 @@ def run(ctx):
     attackrules.prechecker_rule(ctx, facts, "N2")
     attackrules.pinned_rule(ctx, facts, "N3")
     attackrules.checker_rule(ctx, facts, "N4")
+    shared.attack_component(ctx, facts, "N8", "is_attacked, the attack test of the legality filter, rests on the attack tables")
     attackrules.sibling_rules(ctx, facts, "N4a")
     genrules.castling_rule(ctx, facts, "N5")
     genrules.partition_rule(ctx, facts, "N6")
